@@ -4,10 +4,13 @@ import NgoVerif.Model.Collect
 import NgoVerif.Model.Globals
 import NgoVerif.Model.Options
 import NgoVerif.Model.Api
+import NgoVerif.Model.Order
 import NgoVerif.DriverCleanup
 import NgoVerif.DriverBinding
 import NgoVerif.DriverNormalize
 import NgoVerif.DriverSumAgg
+import NgoVerif.DriverDependency
+import NgoVerif.DriverUnused
 /-!
 # Line-protocol driver: one s-expression request per line on stdin, one s-expression answer per line on stdout.
 
@@ -54,7 +57,7 @@ def runMakeUnique (u : UniqueVars) : List Sexp → List String → Option (List 
   | _, _ => none
 
 /-- handlers contributed by the per-pass driver files; tried in order -/
-def extHandlers : List (Sexp → Option Sexp) := [handleCleanup, handleBinding, handleNormalize, handleSumAgg]
+def extHandlers : List (Sexp → Option Sexp) := [handleCleanup, handleBinding, handleNormalize, handleSumAgg, handleDependency, handleUnused]
 
 def tryExt (req : Sexp) : List (Sexp → Option Sexp) → Sexp
   | [] => unsupported "unknown op"
@@ -125,6 +128,13 @@ def handle (req : Sexp) : Sexp :=
     match n.toNat? with
     | some k => if flags.length == fl.length then ok [strsToSexp (traceStages flags k)] else unsupported "flags"
     | none => unsupported "iterations"
+  | .list [.atom "order_spec", .list vs] =>
+    match vs.mapM Sexp.toInt? with
+    | some l =>
+      let (mn, mx, nx) := orderSpec l
+      let opt : Option Int → Sexp := fun o => match o with | some v => ofInt v | none => .atom "none"
+      ok [opt mn, opt mx, .list (nx.map fun (a, b) => .list [ofInt a, ofInt b])]
+    | none => unsupported "non-integer value"
   | _ => tryExt req extHandlers
 
 partial def loop (hin : IO.FS.Stream) (hout : IO.FS.Stream) : IO Unit := do
